@@ -306,3 +306,6 @@ func ToLE(x *big.Int) []byte {
 	}
 	return out
 }
+
+// HMAC256 is HMAC-SHA256(key, msg).
+func HMAC256(key, msg []byte) []byte { return hm(key, msg) }
